@@ -135,8 +135,12 @@ def _worker_entry(args):
 
     old = None
     try:
+        # the budget is CPU time of this worker (a livelock burns CPU; a machine that is merely busy with other work does not), with a
+        # generous wall-clock backstop for code that blocks without computing
         old = signal.signal(signal.SIGALRM, on_alarm)
-        signal.setitimer(signal.ITIMER_REAL, ITEM_TIMEOUT.get(tier, 420))
+        signal.signal(signal.SIGPROF, on_alarm)
+        signal.setitimer(signal.ITIMER_PROF, ITEM_TIMEOUT.get(tier, 420))
+        signal.setitimer(signal.ITIMER_REAL, 8 * ITEM_TIMEOUT.get(tier, 420))
     except (ValueError, AttributeError):
         old = None
     try:
@@ -178,6 +182,7 @@ def _worker_entry(args):
     finally:
         if old is not None:
             signal.setitimer(signal.ITIMER_REAL, 0)
+            signal.setitimer(signal.ITIMER_PROF, 0)
             signal.signal(signal.SIGALRM, old)
 
 
